@@ -116,7 +116,10 @@ Step(e) ==
                         THEN (IF Bytes(e.ct) # res' THEN {"C14.cipher-mismatch"} ELSE {})
                              \cup (IF Bytes(e.ct) = Bytes(e.pt) /\ res' # Bytes(e.pt) THEN {"C14.plaintext-on-wire"} ELSE {})
                         ELSE (IF e.cth = e.h /\ e.n >= 16 THEN {"C14.plaintext-on-wire"} ELSE {})
-            bad == match \cup big \cup nz \cup enc
+            \* the body is byte for byte a payload this node was asked to send (whatever the harness' decryption made of it)
+            clear == IF isw /\ ~cut /\ e.n >= 16 /\ (\E i \in 1..Len(pend) : pend[i].dir = e.dir /\ pend[i].n = e.n /\ pend[i].h = e.cth /\ LaneHead(pend, i))
+                     THEN {"C14.plaintext-on-wire"} ELSE {}
+            bad == match \cup big \cup nz \cup enc \cup clear
         IN /\ pend' = IF cl[1] \in {"head", "later"} THEN DropAt(pend, cl[2]) ELSE pend
            /\ done' = IF cl[1] \in {"head", "later"} THEN done \cup {<<e.dir, e.n, e.h>>} ELSE done
            /\ ooo' = (ooo \/ cl[1] = "later")
